@@ -138,7 +138,7 @@ def make_optimiser(cfg):
     import optrun
     # graphs of 13 and 16 nodes (depth 3): sizes beyond anything the other initial sets reach
     leaves = lambda names: [[n_, []] for n_ in names]
-    optrun.INITIAL_GRAPHS.setdefault('big', [
+    optrun.INITIAL_GRAPHS.setdefault('c14_wide', [
         ['a', [['b', leaves('abc')], ['c', leaves('bca')], ['a', leaves('cab')]]],
         ['b', [['a', leaves('abca')], ['c', leaves('bcab')], ['b', leaves('cabc')]]]])
     if cfg.get('agent', 'default') == 'default':
@@ -545,7 +545,7 @@ def build_groups(ctx):
         if cfg['optimiser'] == 'surrogate':     # the surrogate model is consulted when the generation counter reaches 5
             cfg['num_of_generations'] = 6 + i % 3
         if i % 6 == 0:                          # graphs of more than 12 nodes
-            cfg['initial'] = 'big'
+            cfg['initial'] = 'c14_wide'
             cfg['max_depth'] = 5
             cfg['max_arity'] = 4
         if i % 6 == 1:
@@ -560,6 +560,8 @@ def build_groups(ctx):
         g['runs'] = [('base', None, {}), ('repeat', 'CRepeat', {}), ('hash', 'CHashSeed', {'hashseed': hs}),
                      ('progress', 'CProgress', {'show_progress': True}), ('logging', 'CLogging', {'log_level': 10}),
                      ('inproc', 'CSameInterpreter', {'sequence': True})]
+        if ctx.tier == 'quick':     # time budget: the two presentation switches alternate over the configurations
+            g['runs'] = [r for r in g['runs'] if r[0] != ('logging' if i % 2 == 0 else 'progress')]
         groups.append(g)
     par_kinds = ['evo', 'pop_random_mutation', 'surrogate']
     for i in range(n_par):
@@ -802,7 +804,8 @@ def run(ctx):
         'reproducibility of real runs is sampled (fresh interpreters, full exports), not proved',
         'uuid4 = UUID(bytes=os.urandom(16)); joblib draws its own uuid4 values through the same os.urandom']
     ctx.assumptions = ['objectives are deterministic functions of the graph', 'timeouts are generous: wall time never decides']
-    groups = build_groups(ctx)
+    groups = list(getattr(ctx, 'c14_corpus', [])) + build_groups(ctx)
+    ctx.c14_corpus = []
     cases, built = run_groups(ctx, groups)
     # canary: a repeat run whose last recorded fitness value was altered must be flagged
     canary_at = None
@@ -864,6 +867,11 @@ def replay(ctx, payload):
         return
     g = {'name': case.get('group', 'replay'), 'family': case.get('family', 'single'), 'cfg': case['cfg'],
          'callback_fault': case.get('callback_fault'), 'runs': [tuple(r) for r in case['runs']]}
+    if '--replay' not in sys.argv:      # corpus stage: run together with the generated groups (one pool of interpreters)
+        if not hasattr(ctx, 'c14_corpus'):
+            ctx.c14_corpus = []
+        ctx.c14_corpus.append(g)
+        return
     cases, built = run_groups(ctx, [g])
     if not built:
         return
